@@ -2,15 +2,20 @@
 defaults (Retry objects of api-core) inspected.  Bounded; never counted as proof."""
 
 
-def files():
+def files(paged=False):
     from vf import genlab as G
     fd = G.new_file("acme/lab/v1/lab.proto", "acme.lab.v1")
     G.add_message(fd, "Req", [G.F("name", 1, G.T.TYPE_STRING)])
     G.add_message(fd, "Resp", [G.F("x", 1, G.T.TYPE_STRING)])
+    if paged:
+        G.add_message(fd, "ListReq", [G.F("parent", 1, G.T.TYPE_STRING), G.F("page_size", 2, G.T.TYPE_INT32), G.F("page_token", 3, G.T.TYPE_STRING)])
+        G.add_message(fd, "ListResp", [G.F("items", 1, G.T.TYPE_MESSAGE, label=G.REPEATED, type_name=".acme.lab.v1.Resp"), G.F("next_page_token", 2, G.T.TYPE_STRING)])
     for sname in ("Lab", "Other"):
         svc = G.add_service(fd, sname)
         for mname in ("Alpha", "Beta", "Gamma", "Delta"):
             G.add_method(svc, mname, ".acme.lab.v1.Req", ".acme.lab.v1.Resp", http=("get", "/v1/{name=%s/%s/*}" % (sname.lower(), mname.lower())))
+        if paged and sname == "Lab":
+            G.add_method(svc, "ListAlphas", ".acme.lab.v1.ListReq", ".acme.lab.v1.ListResp", http=("get", "/v1/{parent=lab/*}/alphas"))
     return [fd]
 
 
@@ -105,7 +110,10 @@ def scenarios():
     failures += run_isolated("props.C09_native", "rest_deadlines")
     cases += 6
     failures += run_isolated("props.C09_native", "call_deadlines")
-    cases += 10
+    cases += 12
+    # a REST-only library reads the service configuration too
+    failures += [dict(f, generated_with="transport=rest") for f in run_isolated("props.C09_native", "rest_only_deadlines")]
+    cases += 6
     return {"cases": cases, "failures": failures}
 
 
@@ -119,7 +127,9 @@ def rest_deadlines():
     svc = fd.service[0]
     G.add_method(svc, "Post", ".acme.lab.v1.Req", ".acme.lab.v1.Resp", http=("post", "/v1/{name=lab/post/*}"), body="*")
     cfg = {"methodConfig": [{"name": [N("Lab", "Alpha"), N("Lab", "Post")], "timeout": "30s"}]}
-    api, res = G.generate([fd], "autogen-snippets=false,transport=grpc+rest", retry_config=cfg)
+    import os
+    tr_opt = os.environ.get("VERIF_C09_REST_TRANSPORTS", "grpc+rest")
+    api, res = G.generate([fd], "autogen-snippets=false,transport=" + tr_opt, retry_config=cfg)
     failures = []
     with G.materialised(res):
         lab_v1 = importlib.import_module("acme.lab_v1")
@@ -164,8 +174,9 @@ def call_deadlines():
     from vf import genlab as G
     from google.auth.credentials import AnonymousCredentials
     cfg = {"methodConfig": [{"name": [N("Lab", "Alpha")], "timeout": "30s"},
-                            {"name": [N("Lab", "Gamma")], "timeout": "12s", "retryPolicy": RP2}]}
-    api, res = G.generate(files(), "autogen-snippets=false", retry_config=cfg)
+                            {"name": [N("Lab", "Gamma")], "timeout": "12s", "retryPolicy": RP2},
+                            {"name": [N("Lab", "ListAlphas")], "timeout": "20s"}]}
+    api, res = G.generate(files(paged=True), "autogen-snippets=false", retry_config=cfg)
     failures = []
     with G.materialised(res):
         lab_v1 = importlib.import_module("acme.lab_v1")
@@ -194,7 +205,30 @@ def call_deadlines():
                 ok = (got is None) if want is None else (isinstance(got, (int, float)) and abs(got - want) < 0.5 and got <= want)
                 if not ok:
                     failures.append({"client": which, "call": f"{pyname}({kwargs})", "what": "deadline of the call on the channel", "got": got, "want": want})
+        # a paginated rpc: every page is fetched under the same deadline - the caller's if given, the entry's otherwise
+        pages = []
+
+        def phandler(kind, path, raw, md, deser, timeout):
+            pages.append(timeout)
+            r = lab_v1.ListResp(items=[lab_v1.Resp(x="i%d" % len(pages))], next_page_token="t" if len(pages) < 3 else "")
+            return deser(lab_v1.ListResp.serialize(r))
+        pclient = lab_v1.LabClient(transport=LabGrpcTransport(channel=G.fake_channel(phandler), credentials=AnonymousCredentials()))
+        for kwargs, want in (({"timeout": 4.5}, 4.5), ({}, 20.0)):
+            del pages[:]
+            try:
+                n_items = len(list(pclient.list_alphas(request={"parent": "lab/1"}, **kwargs)))
+            except Exception as e:      # noqa
+                failures.append({"client": "sync", "call": f"list_alphas({kwargs})", "error": repr(e)[:200]})
+                continue
+            if n_items != 3 or len(pages) != 3 or any(not (isinstance(t_, (int, float)) and abs(t_ - want) < 0.5 and t_ <= want) for t_ in pages):
+                failures.append({"client": "sync", "call": f"list_alphas({kwargs})", "what": "deadlines of the page requests", "got": pages, "want": [want] * 3})
     return failures
+
+
+def rest_only_deadlines():
+    import os
+    os.environ["VERIF_C09_REST_TRANSPORTS"] = "rest"
+    return rest_deadlines()
 
 
 def transport_defaults(ci):
